@@ -288,7 +288,7 @@ Proof.
   - rewrite !leaf_dtype_Par. apply (IHc arr), Hlf.
 Qed.
 
-Lemma sort_top_refines asc argsort c vs :
+Lemma sort_top_refines asc (argsort : bool) c vs :
   Valid None c -> frag c = true -> to_list c = Ok vs -> is_leaf_ty (type_of c) = true ->
   obs (do ks <- leaf_keys None (expand c);
        Ok (content_of_keys (if argsort then DInt64 else leaf_dtype c) (sort_keys asc argsort (leaf_dtype c) ks)))
@@ -327,7 +327,7 @@ Proof.
     destruct (model_ax (sort_g asc argsort) (Ok Empty) true c ax) as [r|[]]; cbn [refines] in HR; try contradiction.
     + destruct HR as (Hchk & ws & Hws & Hr). rewrite (check_leafish_leaf _ 0 ax Hst) in Hchk.
       rewrite (check_mono is_leaf_ty sortable _ is_leaf_sortable 0 ax Hst Hchk). cbn [bind obs].
-      rewrite Hr, <- Hws. apply mapM_ext_in. intros v _. symmetry. apply spec_v_leaf_ext; assumption.
+      rewrite Hr, <- Hws. apply mapM_ext_in. intros v _. apply spec_v_leaf_ext; assumption.
     + rewrite (check_leafish_leaf _ 0 ax Hst) in HR. rewrite HR in *.
       destruct (check_ax true (fun _ : ty => true) true (type_of c) 0 ax) as [u|e] eqn:Ec; [discriminate|].
       pose proof (check_err _ _ _ _ _ Hst Ec). subst e. cbn [obs].
@@ -351,10 +351,14 @@ Theorem innermost_modelled : forall asc argsort axis c vs,
 Proof.
   intros asc argsort axis c vs HV Hsf Hl Hin. unfold sfrag in Hsf. apply andb_true_iff in Hsf as [Hfr Hne].
   unfold sort_modelled, sort_model, innermost in *.
-  destruct (resolve_axis (type_of c) 0 axis) as [ax|e]; cbn [bind]; [|reflexivity].
+  destruct (resolve_axis (type_of c) 0 axis) as [ax|e] eqn:Er; cbn [bind]; [|apply resolve_err in Er; subst e; reflexivity].
   destruct (sortable (type_of c)) eqn:Hs; cbn [negb]; [|reflexivity].
   destruct (ax =? 0) eqn:E0.
-  - rewrite Hin. destruct (leaf_keys None (expand c)); reflexivity.
+  - rewrite Hin.
+    destruct (leaf_keys_spec (expand c) vs) as (ks & Hks & _);
+      [apply expand_valid; assumption|rewrite expand_type_of by assumption; apply is_leaf_leafish, Hin
+      |rewrite expand_to_list; assumption|].
+    rewrite Hks. reflexivity.
   - pose proof (sort_ax_refines asc argsort c ax vs HV Hfr Hl) as HR.
     destruct (model_ax (sort_g asc argsort) (Ok Empty) true c ax) as [r|[]]; cbn [refines] in HR; try contradiction; [reflexivity|].
     destruct (check_ax true is_leaf_ty true (type_of c) 0 ax); [reflexivity|discriminate].
@@ -441,3 +445,57 @@ Proof.
   rewrite (sort_refines_spec_innermost asc argsort axis a vs), (sort_refines_spec_innermost asc argsort axis b vs), Hty;
     try assumption; [reflexivity|rewrite <- Hty; exact Hin].
 Qed.
+
+(* ---------------------------------------------------------------- instances *)
+(* three levels: lists of optional lists of optional numbers (ListOffset / IndexedOption / ListArray with a gap /
+   ByteMasked), NaN first, None last, nothing leaves its list; argsort returns positions within each list *)
+Example sort_refines_ex :
+  let c := ListOffset I64 [0; 2; 3]
+             (IndexedOption I64 [1; -1; 0]
+                (ListA I64 [0; 3] [3; 5]
+                   (ByteMasked [1; 0; 1; 1; 1] true (Numpy DFloat64 [5] [DZ 3; DZ 9; DNaN; DZ (-1); DZ 2])))) in
+  validb None c = true /\ sfrag c = true /\
+  to_list c = Ok [VList [VList [VNum (DZ (-1)); VNum (DZ 2)]; VNone]; VList [VList [VNum (DZ 3); VNone; VNum DNaN]]] /\
+  innermost (-1) (type_of c) = true /\ innermost 2 (type_of c) = true /\ innermost 1 (type_of c) = false /\
+  obs (sort_model true false (-1) c)
+  = Ok [VList [VList [VNum (DZ (-1)); VNum (DZ 2)]; VNone]; VList [VList [VNum DNaN; VNum (DZ 3); VNone]]] /\
+  obs (sort_model false true 2 c)
+  = Ok [VList [VList [VNum (DZ 1); VNum (DZ 0)]; VNone]; VList [VList [VNum (DZ 2); VNum (DZ 0); VNum (DZ 1)]]] /\
+  sort_modelled true false 1 c = false.
+Proof. vm_compute. repeat split. Qed.
+
+(* strings sort as units inside their lists *)
+Example sort_refines_strings_ex :
+  let c := ListOffset I64 [0; 3; 3; 5]
+             (Par (Some AString) None
+                (ListOffset I64 [0; 1; 3; 3; 4; 6]
+                   (Par (Some AChar) None (Numpy DUInt8 [6] [DZ 98; DZ 97; DZ 98; DZ 97; DZ 99; DZ 100])))) in
+  validb None c = true /\ sfrag c = true /\
+  to_list c = Ok [VList [VStr true [98]; VStr true [97; 98]; VStr true []]; VList []; VList [VStr true [97]; VStr true [99; 100]]] /\
+  obs (sort_model true false (-1) c)
+  = Ok [VList [VStr true []; VStr true [97; 98]; VStr true [98]]; VList []; VList [VStr true [97]; VStr true [99; 100]]] /\
+  obs (sort_model false true 1 c) = Ok [VList [VNum (DZ 0); VNum (DZ 1); VNum (DZ 2)]; VList []; VList [VNum (DZ 1); VNum (DZ 0)]].
+Proof. vm_compute. repeat split. Qed.
+
+(* records are in the fragment, but neither the model nor the specification sorts them: both refuse *)
+Example sort_refines_record_ex :
+  let c := Record [ListOffset I64 [0; 2; 3] (IndexedOption I64 [1; -1; 0] (Numpy DInt64 [2] [DZ 5; DZ 4]));
+                   Numpy DInt64 [2] [DZ 1; DZ 2]] None 2 in
+  validb None c = true /\ sfrag c = true /\ sort_modelled true false (-1) c = true /\
+  obs (sort_model true false (-1) c) = Err EValue /\
+  sort_spec true false (-1) (type_of c)
+    [VTup [VList [VNum (DZ 4); VNone]; VNum (DZ 1)]; VTup [VList [VNum (DZ 5)]; VNum (DZ 2)]] = Err EValue.
+Proof. vm_compute. repeat split. Qed.
+
+(* Why EmptyArray is excluded ([no_empty]): without it the statement is FALSE of model and specification as
+   written.  For a list of missing values whose content is an EmptyArray (type option[unknown]) the model's argsort
+   returns the positions of the missing values (as for every other leaf type), whereas [sortcols] treats
+   [TOpt TUnk] as a non-leaf type ("missing lists stay missing") and returns None. *)
+Example sort_refines_spec_refuted :
+  let c := ListOffset I64 [0; 2] (IndexedOption I64 [-1; -1] Empty) in
+  validb None c = true /\ frag c = true /\ to_list c = Ok [VList [VNone; VNone]] /\
+  type_of c = TList None None (TOpt TUnk) /\
+  sort_modelled true true (-1) c = true /\
+  obs (sort_model true true (-1) c) = Ok [VList [VNum (DZ 0); VNum (DZ 1)]] /\
+  sort_spec true true (-1) (type_of c) [VList [VNone; VNone]] = Ok [VList [VNone; VNone]].
+Proof. vm_compute. repeat split. Qed.
